@@ -254,7 +254,7 @@ pub fn run(ctx: &Ctx, rep: &mut Report) {
         "asan" => (ctx.n(160, 1600), 40),
         _ => (ctx.n(480, 16000), if ctx.quick() { 40 } else { 100 }),
     };
-    let std_table = RewriteTable::parse(&std::fs::read_to_string("/repo/resources/rewrite.def").unwrap_or_default());
+    let std_table = RewriteTable::parse(&std::fs::read_to_string(crate::env::repo_root().join("resources/rewrite.def")).unwrap_or_default());
     let mut hooks = sudachi::verif::counters();
     for wi in ctx.indices(n_worlds) {
         if ctx.out_of_time() {
